@@ -662,8 +662,8 @@ fn deleg_shape(body: &syn::Block) -> String {
           None => return "Opaque".into(),
         }
       }
-      syn::Stmt::Expr(e, None) if i + 1 == n => {
-        // the tail
+      syn::Stmt::Expr(e, _) if i + 1 == n => {
+        // the tail (with or without a trailing semicolon)
         return match e {
           syn::Expr::Binary(b) => {
             let op = match b.op {
@@ -797,9 +797,14 @@ fn walk_item(out: &mut Out, file: &str, it: &syn::Item) {
     syn::Item::Macro(m) => {
       // macro_rules! with arms: record per arm how often each metavariable occurs in the
       // expansion and whether the occurrence sits inside a loop body
+      let body = m.mac.tokens.to_string();
+      let body = body.split_whitespace().collect::<Vec<_>>().join(" ");
       if let Some(id) = &m.ident {
-        let body = m.mac.tokens.to_string();
-        out.macros.push(format!("({}, {})", q(&id.to_string()), q(&body.split_whitespace().collect::<Vec<_>>().join(" "))));
+        out.macros.push(format!("({}, {})", q(&id.to_string()), q(&body)));
+      } else {
+        // an invocation at item level, e.g. `minivec_eq_impl! { [] MiniVec<T>, [U] }`
+        let name = m.mac.path.segments.last().map(|x| x.ident.to_string()).unwrap_or_default();
+        out.macros.push(format!("({}, {})", q(&format!("call:{}", name)), q(&body)));
       }
     }
     _ => {}
